@@ -77,16 +77,22 @@ func (fan *HwMonFan) GetRpm() (int, error) {
 	if value, err := util.ReadIntFromFile(fan.Config.HwMon.RpmInputPath); err != nil {
 		return 0, err
 	} else {
+		valueMu.Lock()
 		fan.Rpm = value
+		valueMu.Unlock()
 		return value, nil
 	}
 }
 
 func (fan *HwMonFan) GetRpmAvg() float64 {
+	valueMu.Lock()
+	defer valueMu.Unlock()
 	return fan.RpmMovingAvg
 }
 
 func (fan *HwMonFan) SetRpmAvg(rpm float64) {
+	valueMu.Lock()
+	defer valueMu.Unlock()
 	fan.RpmMovingAvg = rpm
 }
 
@@ -95,7 +101,9 @@ func (fan *HwMonFan) GetPwm() (int, error) {
 	if err != nil {
 		return MinPwmValue, err
 	}
+	valueMu.Lock()
 	fan.Pwm = value
+	valueMu.Unlock()
 	return value, nil
 }
 
